@@ -1,12 +1,21 @@
 (* C11 - serialization: round trip, exact size, protobuf wire compatibility, hostile-input safety.
-   Only statements here; every proof is `exact <lemma of SE/SEProofs.v>`.
+   Only statements here; every proof is `exact <lemma of SE/SEProofs.v or SE/SEHang.v>`.
 
    Model: SE/SEModel.v (types ty, values val, ssize/encode as the two passes of the code, decode over a model of
    CodedInputStream: the window up to the innermost limit; PushLimit narrows it, so a parser never sees a byte
    outside its limit BY CONSTRUCTION of the stream model - memory safety of the real code is checked by the
-   ASan/UBSan runs, not proved).
+   ASan/UBSan runs, not proved).  The model follows /repo after the fixes b1345b6 (member size cache stored before
+   the size == 0 test) and e367940 (a length prefix that cannot be read is a parse failure); both code shapes are
+   translator targets, so reverting either breaks the translator (and e367940 re-opens SEHang.dec_len_prog).
 
    Proved for ALL values of ALL types of the universe (incl. sets, maps):  c11_size_exact.
+   Proved for ALL byte strings and ALL types (incl. sets, maps, ill-formed schemas), debug and NDEBUG:
+   c11_parse_terminates (flat array / string / stream under an enclosing limit: the result is never Hang) and
+   c11_decode_consumes (a parser only moves forward inside its window and leaves the limit as it found it).
+   c11_parse_terminates_unlimited_partial: the same on a stream WITHOUT any limit for every type in which no
+   container (vector/list/set/map/array) holds smart pointers to scalars; for those types it is false
+   (c11_unlimited_scalar_ptr_vector_hang_refuted, replayed on the real code) - the same types whose null
+   elements vanish (finding null-scalar-ptr-in-container-lost).
    Proved for all well-formed values of every type built from scalars, enum, string, vector, list, array,
    unique/shared pointers and AGGREGATES with field numbers (base classes are fields), arbitrarily nested, debug
    and NDEBUG, fresh target object:  c11_roundtrip_partial, c11_roundtrip_scalar_partial.  "partial" = (1) hash
@@ -16,13 +25,14 @@
    any sequence, in any order, of encodings of distinct known fields and of unknown fields of every wire type
    (varint, fixed64, length-delimited, fixed32) parses to the default object updated at exactly the fields present:
    unknown fields are skipped, absent fields keep their defaults, field order does not matter.
-   NOT proved (checked on implementation + model by the correspondence run only): success of a parse of ARBITRARY
-   bytes => stable under re-serialisation; that the wire format of each field equals protobuf's own encoder output
-   (checked against protoc-generated messages by the monitors).
-   The full-strength statements are FALSE of the code as it is - see the *_refuted theorems (each replayed on the
-   real classes by checks/c11.py and listed in KNOWN_FINDINGS.txt). *)
+   NOT proved (checked on implementation + model by the correspondence run and monitors only): success of a parse
+   of ARBITRARY bytes => stable under re-serialisation; that the wire format of each field equals protobuf's own
+   encoder output (checked against protoc-generated messages); the size cache of re-used objects (monitor).
+   The remaining *_refuted theorems are the three findings still open in KNOWN_FINDINGS.txt (null scalar pointers
+   in containers, top-level vector on a stream without limit: empty / vector<float>: terminate), each replayed on
+   the real classes by checks/c11.py. *)
 From Coq Require Import ZArith List Permutation.
-Require Import Verif.Gen.Gen_serialization Verif.SE.SEModel Verif.SE.SEProofs.
+Require Import Verif.Gen.Gen_serialization Verif.SE.SEModel Verif.SE.SEProofs Verif.SE.SEHang.
 Import ListNotations.
 Local Open Scope Z_scope.
 
@@ -104,9 +114,35 @@ Theorem c11_any_presentation_crash_refuted :
 Proof. exact se_unlimited_float_crash. Qed.
 Print Assumptions c11_any_presentation_crash_refuted.
 
-Theorem c11_parse_terminates_refuted : parse false false (TVec TStr) (repeat 128 11) = Hang.
-Proof. exact se_terminates_refuted. Qed.
-Print Assumptions c11_parse_terminates_refuted.
+(* on a stream without any limit a vector of smart pointers to scalars under a length prefix that points beyond the
+   end of the stream still spins (types outside elems_ok / ty_ok) *)
+Theorem c11_unlimited_scalar_ptr_vector_hang_refuted :
+  parse false true (TAgg [(1, TVec (TPtr false (TS KI32)))]) [10; 5] = Hang.
+Proof. exact se_unlimited_scalar_ptr_vector_hangs. Qed.
+Print Assumptions c11_unlimited_scalar_ptr_vector_hang_refuted.
+
+(* ---- hostile input: parsing terminates, inside the input ---- *)
+(* any bytes, any type, flat array / string / stream under an enclosing limit, debug and NDEBUG *)
+Theorem c11_parse_terminates : forall nd t bs, parse nd false t bs <> Hang.
+Proof. exact parse_terminates. Qed.
+Print Assumptions c11_parse_terminates.
+
+(* any bytes on a stream without any limit, for every type whose containers do not hold smart pointers to scalars *)
+Theorem c11_parse_terminates_unlimited_partial : forall nd t bs, elems_ok t -> parse nd true t bs <> Hang.
+Proof. exact parse_terminates_unlimited. Qed.
+Print Assumptions c11_parse_terminates_unlimited_partial.
+
+(* every decoder only moves forward inside the window it was given and leaves the enclosing limit untouched *)
+Theorem c11_decode_consumes : forall nd t s cur v s', decode nd t s cur = Ok v s' ->
+  (length (win s') <= length (win s))%nat /\ ext s' = ext s.
+Proof. exact decode_consumes. Qed.
+Print Assumptions c11_decode_consumes.
+
+Example c11_elems_ok_of_ty_ok : forall t, ty_ok t -> elems_ok t.
+Proof. exact ty_ok_elems_ok. Qed.
+(* the former witness of non-termination is a parse failure since e367940 *)
+Example c11_overlong_length_prefix_fails : parse false false (TVec TStr) (repeat 128 11) = Fail.
+Proof. exact se_overlong_length_fails. Qed.
 
 (* ---- non-vacuity and the aggregate behaviours on a concrete schema ---- *)
 Example c11_hypotheses_satisfiable : wf ex_ty ex_val /\ ty_ok ex_ty /\ no_hash ex_ty /\ is_ld ex_ty = true.
